@@ -347,10 +347,12 @@ pub fn random_tokens(
                 let lo = pos.partition_point(|&x| x + 32768 < i);
                 let hi = pos.partition_point(|&x| x < i);
                 if hi > lo {
-                    let j = if r.chance(1, 3) {
-                        pos[hi - 1]
-                    } else {
-                        pos[lo + r.below((hi - lo) as u64) as usize]
+                    let j = match r.below(12) {
+                        0..=3 => pos[hi - 1],
+                        // the earliest candidate in the window: reaches back to the start of the
+                        // plaintext (distance == position) while the plaintext is shorter than 32 KiB
+                        4..=6 => pos[lo],
+                        _ => pos[lo + r.below((hi - lo) as u64) as usize],
                     };
                     let mut l = 3;
                     while i + l < end && l < 258 && p[j + l] == p[i + l] {
